@@ -484,6 +484,9 @@ def spec_evaluate(expr):
         n = evaluate_expression(expr)
     except Exception as e:  # pylint: disable=broad-except
         return False, f"evaluate_expression raised {type(e).__name__}: {e}"
+    n = sympy.sympify(n)
+    if n.atoms(SymQuantity) or n.free_symbols:
+        return False, f"result {n} is not a pure number: quantities {sorted(map(str, n.atoms(SymQuantity)))} were not replaced"
     try:
         q = Quantity(expr)
     except Exception:  # pylint: disable=broad-except
@@ -514,6 +517,9 @@ def stream_eval(ctx, n):
             mag = rng.choice(unitgen.EXACT_MAGS + ["S.Zero"])
             unit = unitgen.pick_unit(rng, cls)
             src = f"Quantity(({mag})*{unit})" if unit != "S.One" else f"Quantity(S({mag}))"
+            raw = [x for x in unitgen.CLASSES[cls] if x.startswith("u.") and x.count("u.") == 1 and "*" not in x and "/" not in x]
+            if raw and rng.random() < 0.35:
+                src = rng.choice(raw)          # a plain sympy.physics.units atom (unit or constant), not a symplyphysics Quantity
             lsrc.append(src)
             try:
                 leaves.append(build(src))
@@ -557,6 +563,86 @@ EVAL_CHECK = ("fun c : aexpr * qexpr * result val * cres => let '(a, q, n, s) :=
     "| Ok (VQ nn), Ok (VQ ss, d) => match collect (si_unit_expr live_tbl d) with "
     "    | Ok (VQ k, _) => Qeq_bool (nn * k) ss | Ok (VOther, _) => true | _ => false end "
     "| _, _ => true end")
+
+
+# ---- dimensions outside the seven SI bases (information units, user-defined Dimension objects) ----------------------
+# Base/Dim.v has nine slots (7 SI + angle + any_dimension), so these inputs are NOT run through the Gallina model: the
+# implementation's verdict is compared with a specification predicate computed independently from
+# dimsys_SI.get_dimensional_dependencies: accepted  <=>  equal dependency dicts after angle erasure (zero / inf / nan
+# values match anything), and an accepted conversion returns n with n * scale(target) = scale(value).
+
+EXTRA_VALUES = ["Quantity(({m})*u.byte)", "({m})*u.byte*u.meter", "Quantity(({m})*u.bit/u.second)", "Quantity(({m})*u.kibibyte)",
+    "({m})*u.kibibyte", "Quantity(({m}), dimension=Dimension('apples'))", "Quantity(({m})*u.meter, dimension=u.length*Dimension('apples'))",
+    "Quantity(({m}), dimension=angle_type*u.information)", "Quantity(({m})*u.byte/u.meter**2)", "({m})*u.bit*u.joule",
+    "Quantity(({m}), dimension=Dimension('apples')/Dimension('pears'))", "Quantity(({m}), dimension=Dimension('apples')**2)",
+    "Quantity(({m})*u.meter)", "Quantity(({m})/u.second)", "S({m})", "Quantity(({m})*u.percent)"]
+EXTRA_TARGETS = ["S.One", "u.meter", "u.hertz", "u.percent", "u.bit", "u.byte", "u.kibibyte", "u.byte*u.meter", "u.bit/u.second", "u.mebibyte",
+    "Quantity(1, dimension=Dimension('apples'))", "Quantity(3, dimension=Dimension('apples')*u.length)", "u.kibibyte/u.minute",
+    "Quantity(2, dimension=Dimension('pears'))", "Quantity(2, dimension=Dimension('apples')/Dimension('pears'))", "u.joule*u.byte",
+    "Quantity(4, dimension=Dimension('apples')**2)", "u.byte/u.centimeter**2", "Quantity(1, dimension=angle_type*Dimension('apples'))",
+    "1/u.second", "u.radian"]
+
+
+def indep_deps(obj):
+    """(scale, {base dimension name: exponent} without angle) from plain SymPy, not from symplyphysics' collector"""
+    from sympy.physics.units.systems.si import dimsys_SI  # pylint: disable=import-outside-toplevel
+    obj = sympy.sympify(obj)
+    scale = qx.pyvalue(obj)
+    if isinstance(obj, SymQuantity):
+        d = obj.dimension
+    elif not obj.atoms(SymQuantity):
+        return scale, {}
+    else:
+        _f, d = SI._collect_factor_and_dimension(obj)  # pylint: disable=protected-access
+    deps = {str(k.name): sympy.nsimplify(v) for k, v in dimsys_SI.get_dimensional_dependencies(d).items()}
+    deps.pop("angle", None)
+    return scale, {k: v for k, v in deps.items() if v != 0}
+
+
+def spec_convert_deps(value, target, obs):
+    try:
+        sv, dv = indep_deps(value)
+        su, du = indep_deps(target)
+    except Exception:  # pylint: disable=broad-except
+        return None
+    if is_anyval(sv) or is_anyval(su) or "any_dimension" in dv or "any_dimension" in du:
+        return None
+    if dv != du:
+        return obs[0] == "err"
+    if obs[0] == "err":
+        return False
+    try:
+        diff = sympy.N(sympy.sympify(obs[2]) * su - sv, 30)
+        return bool(abs(diff) <= abs(sympy.N(sv, 30)) * sympy.Float("1e-10"))
+    except Exception:  # pylint: disable=broad-except
+        return None
+
+
+def stream_extra_dimensions(ctx, n):
+    """(cases, number of specification verdicts that were decisive)"""
+    from symplyphysics import convert_to, convert_to_float  # pylint: disable=import-outside-toplevel
+    rng = ctx.rng
+    cases = []
+    pairs = [(v, t) for v in EXTRA_VALUES for t in EXTRA_TARGETS]
+    rng.shuffle(pairs)
+    for vt, tt in pairs[:n]:
+        m = rng.choice(["5", "3", "10", "1", "Rational(7,2)", "S.Zero", "Rational(1,1024)"])
+        vsrc = vt.format(m=m)
+        tsrc = tt if rng.random() < 0.7 else (f"Quantity({tt})" if not tt.startswith("Quantity") else tt)
+        try:
+            value, target = build(vsrc), build(tsrc)
+        except Exception:  # pylint: disable=broad-except
+            continue
+        obs = run_val(convert_to, value, target)
+        cases.append({"op": "convert_to", "vsrc": vsrc, "tsrc": tsrc, "obs": obs, "spec": spec_convert_deps(value, target, obs)})
+        if rng.random() < 0.25:
+            try:
+                fl = convert_to_float(value)
+                obs = ("ok", ("Q", Fraction(fl)), sympy.Float(fl))
+            except Exception as e:  # pylint: disable=broad-except
+                obs = ("err", qx.err_class(e), f"{type(e).__name__}: {e}"[:200])
+            cases.append({"op": "convert_to_float", "vsrc": vsrc, "tsrc": "S.One", "obs": obs, "spec": spec_convert_deps(value, S.One, obs)})
+    return cases
 
 
 # ---- history: sequences of conversions in ONE process ----------------------------------------------------
@@ -1070,6 +1156,31 @@ def run(ctx):
                      "observed": _obs_json(c["obs"]), "theorem_or_tie": "numeric side test n * unit = quantity (1e-10)"}, True)
     ctx.coverage["numeric_side_tests"] = n_side
 
+    # ---- dimensions outside the SI seven: verdicts against the dimsys_SI specification predicate (no Gallina model) ---------
+    xcases = stream_extra_dimensions(ctx, ctx.pick(200, 336))
+    n_dec = 0
+    xhist = {}
+    for c in xcases:
+        k = f"extra-dimension/{c['op']}:" + ("err%d" % c["obs"][1] if c["obs"][0] == "err" else "value") + ("" if c["spec"] is not None else "/silent")
+        xhist[k] = xhist.get(k, 0) + 1
+        if c["spec"] is None:
+            continue
+        n_dec += 1
+        if c["spec"] is False:
+            ctx.violation(f"C07:extra-dimension:{c['op']}:{c['vsrc']}->{c['tsrc']}",
+                f"{c['op']}({c['vsrc']}, {c['tsrc']}) = {_obs_json(c['obs'])}: dimensions outside the seven SI bases are not compared "
+                "(or an equivalent conversion is refused / wrong)",
+                {"kind": "violation", "stream": "extra-dimension", "op": c["op"], "value": c["vsrc"], "target": c["tsrc"],
+                 "observed": _obs_json(c["obs"]),
+                 "expected": "refused unless dimsys_SI dependency dicts are equal after angle erasure; then n * target = value",
+                 "theorem_or_tie": "specification predicate over dimsys_SI.get_dimensional_dependencies (inputs outside Dim.v's nine slots)"}, True)
+    hist.update(xhist)
+    ctx.evaluated(len(xcases), len({(c["op"], c["vsrc"], c["tsrc"]) for c in xcases if c["spec"] is not None}))
+    ctx.coverage["extra_dimension_cases"] = len(xcases)
+    ctx.coverage["extra_dimension_decisive"] = n_dec
+    if xcases:
+        ctx.sample({"stream": "extra-dimension", "value": xcases[0]["vsrc"], "target": xcases[0]["tsrc"], "impl": _obs_json(xcases[0]["obs"])})
+
     # ---- convert_to_si / convert_to_float / dimension_to_si_unit ------------------------------------
     scases, h = stream_si(ctx, ctx.pick(1500, 12000))
     hist.update(h)
@@ -1180,7 +1291,9 @@ def run(ctx):
         "symplyphysics-prefixed, non-decimal units), magnitudes exact / dyadic / float / 0, +-oo, nan, as Quantity objects and as raw "
         "expressions, 60% same class / 40% other class, angle factors, zero / infinite targets; si: random integer and half-integer "
         "dimension vectors, SI-unit round trips, angle-bearing dimensions, dimension_to_si_unit itself, convert_to_float; compose: triples "
-        "of one class; evaluate: random Add/Mul/Pow trees (depth <= 3) over 1-3 quantities; celsius: exact dyadic stream + 1e-6..1e7 "
+        "of one class; extra-dimension: information units and user-defined Dimension objects in value / target / both, verdicts against "
+        "the dimsys_SI dependency predicate (no model); evaluate: random Add/Mul/Pow trees (depth <= 3) over 1-3 leaves, 35% of them plain "
+        "sympy unit / constant atoms, result must be a pure number; celsius: exact dyadic stream + 1e-6..1e7 "
         "magnitudes of both signs.  distinct = distinct Gallina literals; non-trivial (convert) = not (same class and result 1)")
 
 
@@ -1244,6 +1357,21 @@ def replay(ctx, rep):
         ok, detail = spec_evaluate(expr)
         print("leaves:", rep["leaves"], "\nrecipe:", rep["recipe"], "\nexpression:", expr)
         print("N * scale(SI unit) = S ?", ok, "--", detail)
+        rc = 1 if ok is False else 0
+    elif stream == "extra-dimension":
+        from symplyphysics import convert_to_float  # pylint: disable=import-outside-toplevel
+        value, target = build(rep["value"]), build(rep["target"])
+        if rep.get("op") == "convert_to_float":
+            try:
+                fl = convert_to_float(value)
+                obs = ("ok", ("Q", Fraction(fl)), sympy.Float(fl))
+            except Exception as e:  # pylint: disable=broad-except
+                obs = ("err", qx.err_class(e), f"{type(e).__name__}: {e}"[:200])
+        else:
+            obs = run_val(convert_to, value, target)
+        ok = spec_convert_deps(value, target, obs)
+        print(f"{rep.get('op')}({rep['value']}, {rep['target']}) -> {_obs_json(obs)}; dependencies {indep_deps(value)[1]} vs {indep_deps(target)[1]}; "
+            f"specification predicate: {ok}")
         rc = 1 if ok is False else 0
     elif stream == "history":
         defs = [tuple(d) for d in rep["defs"]]
